@@ -6,7 +6,7 @@ for sid in sys.argv[1:]:
     prop = sid.split('-')[0]
     d = f'/tmp/tally-eng-{os.getpid()}-{sid}'
     shutil.rmtree(d, ignore_errors=True)
-    shutil.copytree('/repo', d)
+    shutil.copytree(os.environ.get('SEED_BASE', '/repo'), d)   # SEED_BASE: apply the seed on top of another tree (e.g. a fixed copy)
     subprocess.run(['git', '-C', d, 'apply', f'/verif/seeded/{sid}/patch.diff'], check=True)
     env = dict(os.environ, VERIF_REPO=d)
     p = subprocess.run(['./check', prop, 'quick'], cwd='/verif', env=env, capture_output=True, text=True)
